@@ -50,18 +50,26 @@ let lines_of_payload (withid : bool) (payload : string) : int list option =
     | _ -> None
   end else None
 
-let rec run_lazy enc kind q (st : int st) (accepted : int -> bool) (order : int list) : int st option =
+(* Receives as late as possible: a Handle only when the queue is full and the next Report must be
+   accepted (blocking kind: always). The model's buffer and sink are lists, so a Flush of the whole
+   buffer is inserted every 64 Handles to keep the replay linear (flushes never change the outcome:
+   C06_queue_complete holds for every placement of them). *)
+let rec run_lazy enc kind q (st : int st) (accepted : int -> bool) (handled : int) (order : int list) : int st option =
   match order with
   | [] -> Some st
   | id :: rest ->
       let full = List.length st.queue >= q in
-      let st1 = if full && (kind = Blocking || accepted id) then step enc kind (nat_of_int q) st Handle else Some st in
+      let do_handle = full && (kind = Blocking || accepted id) in
+      let st1 = if do_handle then step enc kind (nat_of_int q) st Handle else Some st in
+      let st1 = (match st1 with
+                 | Some s when do_handle && handled mod 64 = 63 -> step enc kind (nat_of_int q) s (Flush (nat_of_int (List.length s.buf)))
+                 | x -> x) in
       (match st1 with
        | None -> None
        | Some st1 ->
            (match step enc kind (nat_of_int q) st1 (Report (owner (n_of_int id), id)) with
             | None -> None
-            | Some st2 -> run_lazy enc kind q st2 accepted rest))
+            | Some st2 -> run_lazy enc kind q st2 accepted (if do_handle then handled + 1 else handled) rest))
 
 let aggr_case fmt q g per mode delay obs : string * string * bool =
   let kind = if fmt = "phout" || fmt = "phoutid" then Blocking else Dropping in
@@ -105,9 +113,11 @@ let aggr_case fmt q g per mode delay obs : string * string * bool =
     else begin
       let order = if mode = "pre" then List.concat (List.init per (fun j -> List.init g (fun i -> (i lsl id_shift) lor j)))
                   else ids_of_csv oorder in
-      let accepted = (match olines with Some ls -> (fun id -> List.mem id ls) | None -> (fun _ -> true)) in
+      let accepted = (match olines with
+                      | Some ls -> let h = Hashtbl.create 1024 in List.iter (fun i -> Hashtbl.replace h i ()) ls; (fun id -> Hashtbl.mem h id)
+                      | None -> (fun _ -> true)) in
       let st0 = if mode = "pre" then run enc kind (nat_of_int q) init (List.map (fun id -> Report (owner (n_of_int id), id)) order)
-                else run_lazy enc kind q init accepted order in
+                else run_lazy enc kind q init accepted 0 order in
       (match st0 with
        | None -> "model:history-not-enabled"
        | Some st0 ->
